@@ -4,6 +4,7 @@
 open Common
 open Core
 
+let rec nat_of_int n = if n <= 0 then O else S (nat_of_int (n - 1))
 let rec pos_of_int n = if n = 1 then XH else if n land 1 = 0 then XO (pos_of_int (n lsr 1)) else XI (pos_of_int (n lsr 1))
 let z_of_int n = if n = 0 then Z0 else if n > 0 then Zpos (pos_of_int n) else Zneg (pos_of_int (-n))
 let rec int_of_pos = function XH -> 1 | XO p -> 2 * int_of_pos p | XI p -> 2 * int_of_pos p + 1
@@ -162,6 +163,26 @@ let () =
              else vals = expect in
            if same then incr nok else Printf.printf "MISMATCH %s %s model=[%s] impl=[%s]\n" id op (String.concat " " expect) (String.concat " " vals)
          | _ -> Printf.printf "MISMATCH %s %s implementation-produced %s\n" id op (String.concat " " res))
+      | "lset" :: id :: dd :: off :: rest ->
+        let d = int_of_string dd and m = keyed rest in
+        let res = split_ws (next ()) in
+        let w = List.map (fun t -> z_of_int (int_of_string t)) (get "w:" m) in
+        let w = if w = [] then List.init d (fun _ -> z_of_int 1) else w in
+        let minw = List.fold_left (fun a x -> min a (int_of_z x)) max_int w in
+        let lim = List.map (fun t -> z_of_int (int_of_string t)) (get "ll:" m) in
+        let exp = List.map string_of_int (flat (select_level (nat_of_int d) w (z_of_int (int_of_string off * minw)) lim)) in
+        (match res with
+         | "r" :: id' :: vals when id' = id ->
+           if vals = exp then incr nok else Printf.printf "MISMATCH %s select-level model=[%s] impl=[%s]\n" id (String.concat " " exp) (String.concat " " vals)
+         | _ -> Printf.printf "MISMATCH %s select-level implementation-produced %s\n" id (String.concat " " res))
+      | "boxfull" :: id :: dd :: rest ->
+        let d = int_of_string dd and m = keyed rest in
+        let res = split_ws (next ()) in
+        let lim = List.map (fun t -> z_of_int (int_of_string t)) (get "ll:" m) in
+        let exp = if limits_box_full lim (idxs d (get "a:" m)) then "1" else "0" in
+        (match res with
+         | ["r"; id'; v] when id' = id -> if v = exp then incr nok else Printf.printf "MISMATCH %s limits-box-full model=%s impl=%s\n" id exp v
+         | _ -> Printf.printf "MISMATCH %s limits-box-full implementation-produced %s\n" id (String.concat " " res))
       | "rlint" :: rule :: maxp :: _ ->
         let r = rule_of rule in
         ignore (next ());
